@@ -73,10 +73,15 @@ func VerifH_C06_parseInt() {
 	if verifChoose(2) == 1 {
 		// the radix is any double with |r| < 2^63, NaN or an infinity
 		// (ToInt32 of larger magnitudes is decided by the C05 kernel harness)
-		rf := verifNondetFloat64()
-		verifAssume(rf != rf || math.Abs(rf) < 9223372036854775808.0 || math.Abs(rf) > math.MaxFloat64)
-		r = refInt32(rf)
-		vm.Set("r", rf)
+		if verifParam("radixdouble", 0) == 1 {
+			rf := verifNondetFloat64()
+			verifAssume(rf != rf || math.Abs(rf) < 9223372036854775808.0 || math.Abs(rf) > math.MaxFloat64)
+			r = refInt32(rf)
+			vm.Set("r", rf)
+		} else {
+			r = verifNondetInt32()
+			vm.Set("r", r)
+		}
 		script = "parseInt(s, r)"
 	}
 	v, ok := verifRun(vm, script)
